@@ -101,7 +101,7 @@ ParamVerdict ==
                 Chk(j, cur) == IF j > Len(C.setp) THEN cur = C.v3
                                ELSE LET nx == Replace(cur, C.setp[j].i, C.setp[j].x) IN C.setp[j].after = nx /\ Chk(j + 1, nx)
             IN Chk(1, v)) THEN "param-vector:set_param"
-  ELSE IF ~Same(C.u_setp, T3) THEN "param-vector:set_param"
+  ELSE IF C.chk3 /\ ~Same(C.u_setp, T3) THEN "param-vector:set_param"
   \* freeze_param(i) on a copy holding v3
   ELSE IF C.frz.i >= 0 /\ (C.frz.nparams # N - 1 \/ C.frz.params # Remove(C.v3, C.frz.i)) THEN "param-vector:freeze_param"
   ELSE IF C.frz.i >= 0 /\ ~Same(C.frz.u, T3) THEN "param-vector:freeze_param"
